@@ -68,14 +68,19 @@ def valOk (rc : Nat) : Value → Bool
 
 def obnameOk (n : ObName) : Prop := n.o < 1073741824 ∧ n.c < 256 ∧ n.i.length < 256
 
+/-- the value (if any) has `count` elements of the attribute's own representation code -/
+def valuesOk (a : Attr) : Prop := ∀ vs ∈ a.value, vs.length = a.count ∧ ∀ v ∈ vs, valOk a.rc v = true
+
 def attrOk (a : Attr) : Prop :=
-  a.label.length < 256 ∧ a.count < 1073741824 ∧ a.rc < 256 ∧ a.units.length < 256 ∧
-  ∀ vs ∈ a.value, vs.length = a.count ∧ ∀ v ∈ vs, valOk a.rc v = true
+  a.label.length < 256 ∧ a.count < 1073741824 ∧ a.rc < 256 ∧ a.units.length < 256 ∧ valuesOk a
 
 /-- a cell of an invariant column is the template attribute; a cell without a value under a column that has a
-default value can only be written as ABSATR, which carries no characteristics of its own -/
+default value can only be written as ABSATR, which carries no characteristics of its own.  A cell's value either fits
+its own count/code, or it is the template's default inherited unchanged — an object may override the count (or code,
+units) *without* a value of its own, and then still presents the template's complete default list. -/
 def cellOk (col : Column) (cell : Attr) : Prop :=
-  attrOk cell ∧ (col.inv = true → cell = col.attr) ∧
+  cell.label.length < 256 ∧ cell.count < 1073741824 ∧ cell.rc < 256 ∧ cell.units.length < 256 ∧
+  (valuesOk cell ∨ cell.value = col.attr.value) ∧ (col.inv = true → cell = col.attr) ∧
   (cell.value = none → col.attr.value ≠ none → cell = { col.attr with value := none })
 
 def rowOk (cols : List Column) (row : Row) : Prop :=
@@ -88,6 +93,7 @@ def Table.wf (t : Table) : Prop :=
   (∀ r ∈ t.rows, rowOk t.cols r) ∧ (t.rows.map Row.name).Nodup
 
 instance : DecidablePred obnameOk := fun n => by unfold obnameOk; infer_instance
+instance : DecidablePred valuesOk := fun a => by unfold valuesOk; infer_instance
 instance : DecidablePred attrOk := fun a => by unfold attrOk; infer_instance
 instance (col : Column) : DecidablePred (cellOk col) := fun c => by unfold cellOk; infer_instance
 instance (cols : List Column) : DecidablePred (rowOk cols) := fun r => by unfold rowOk; infer_instance
@@ -130,7 +136,10 @@ def wantL (d a : Attr) (ch : AttrChoice) : Bool := !(ch.omitL && a.label == d.la
 def wantC (d a : Attr) (ch : AttrChoice) : Bool := !(ch.omitC && a.count == d.count)
 def wantR (d a : Attr) (ch : AttrChoice) : Bool := !(ch.omitR && a.rc == d.rc)
 def wantU (d a : Attr) (ch : AttrChoice) : Bool := !(ch.omitU && a.units == d.units)
-def wantV (d a : Attr) (ch : AttrChoice) : Bool := a.value.isSome && !(ch.omitV && a.value == d.value)
+/-- a value equal to the default is written only if the producer wants to *and* it fits the attribute's own count/code
+(an inherited default under an overridden count can only be inherited) -/
+def wantV (d a : Attr) (ch : AttrChoice) : Bool :=
+  a.value.isSome && !((ch.omitV || !decide (valuesOk a)) && a.value == d.value)
 
 def encAttr (role : Nat) (d a : Attr) (ch : AttrChoice) : Bytes :=
   attrDesc role (wantL d a ch) (wantC d a ch) (wantR d a ch) (wantU d a ch) (wantV d a ch) ::
